@@ -6,15 +6,34 @@ import OdxVerif.Proofs.Inherit
 namespace OdxVerif.Inherit
 open OdxVerif.Gen (LayerKind)
 
+/-! ## obligations over the tables regenerated from the source (`Gen/LayerPrio.lean`) -/
+
+/-- **Priority table.** The priorities in `diaglayertype.py` are strict and order the layer types as
+    ISO 22901-1 §7.3.2.4 demands (`odxRank`): protocol < functional group < base variant < ECU variant,
+    and ECU-SHARED-DATA overrides all of them. All theorems below rest on this one. -/
+theorem C09_priority_table :
+    SameOrder LayerKind.prio odxRank
+    ∧ (∀ a b : LayerKind, a.prio = b.prio → a = b)
+    ∧ LayerKind.prio .protocol < LayerKind.prio .functionalGroup
+    ∧ LayerKind.prio .functionalGroup < LayerKind.prio .baseVariant
+    ∧ LayerKind.prio .baseVariant < LayerKind.prio .ecuVariant
+    ∧ LayerKind.prio .ecuVariant < LayerKind.prio .ecuSharedData
+    ∧ (∀ k : LayerKind, k ∈ [LayerKind.protocol, .functionalGroup, .baseVariant, .ecuVariant, .ecuSharedData]) := by
+  refine ⟨?_, ?_, by decide, by decide, by decide, by decide, ?_⟩
+  · intro a b; cases a <;> cases b <;> decide
+  · intro a b; cases a <;> cases b <;> decide
+  · intro k; cases k <;> decide
+
 /-- **Refinement.** Whenever the merge algorithm returns a view, looking up any short name in it
     gives exactly what the specification says the layer shows for that name. -/
 theorem C09_refines (L : Layer) (hwf : WF L) (objs : List Obj) (h : computeAvailable L = .ok objs)
-    (n : Name) : lookup objs n = visible L n :=
-  ((refines_both.1 L hwf).1 objs h).2.1 n
+    (n : Name) : lookup objs n = visible odxRank L n := by
+  rw [← (visible_congr C09_priority_table.1).1]
+  exact ((refines_both.1 L hwf).1 objs h).2.1 n
 
 /-- the view holds one object per name, so it is exactly the set `{o | visible L o.name = some o}` -/
 theorem C09_refines_mem (L : Layer) (hwf : WF L) (objs : List Obj) (h : computeAvailable L = .ok objs)
-    (o : Obj) : o ∈ objs ↔ visible L o.name = some o := by
+    (o : Obj) : o ∈ objs ↔ visible odxRank L o.name = some o := by
   have hnd := ((refines_both.1 L hwf).1 objs h).1
   rw [← C09_refines L hwf objs h]
   constructor
@@ -25,7 +44,8 @@ theorem C09_refines_mem (L : Layer) (hwf : WF L) (objs : List Obj) (h : computeA
     conflicting (`conflict_iff`, `clash_iff`, `mem_topOffers`, `mem_offersOf` spell that out: some layer
     has a name that is not local and for which two offers of highest priority are different objects). -/
 theorem C09_conflict_iff (L : Layer) (hwf : WF L) :
-    (∃ e, computeAvailable L = .error e) ↔ conflict L = true := by
+    (∃ e, computeAvailable L = .error e) ↔ conflict odxRank L = true := by
+  rw [← (conflict_congr C09_priority_table.1).1]
   have hL := refines_both.1 L hwf
   constructor
   · rintro ⟨e, he⟩; exact hL.2 e he
@@ -37,14 +57,15 @@ theorem C09_conflict_iff (L : Layer) (hwf : WF L) :
 /-- the specification's notion of conflict, in words of offers: the layer is no ECU-SHARED-DATA and either
     a parent is in conflict or some name without local definition has two different top offers -/
 theorem C09_conflict_spec (nm : Nat) (k : LayerKind) (ls : List Obj) (ps : List (Layer × List Name)) :
-    conflict (.mk nm k ls ps) = true ↔
-      k ≠ .ecuSharedData ∧ ((∃ pe ∈ ps, conflict pe.1 = true)
+    conflict odxRank (.mk nm k ls ps) = true ↔
+      k ≠ .ecuSharedData ∧ ((∃ pe ∈ ps, conflict odxRank pe.1 = true)
         ∨ ∃ n, localObj ls n = none ∧
-            ∃ a b, a ∈ offersOf ps n ∧ b ∈ offersOf ps n
-              ∧ (∀ c ∈ offersOf ps n, c.prio ≤ a.prio) ∧ (∀ c ∈ offersOf ps n, c.prio ≤ b.prio)
+            ∃ a b, a ∈ offersOf odxRank ps n ∧ b ∈ offersOf odxRank ps n
+              ∧ (∀ c ∈ offersOf odxRank ps n, odxRank c.kind ≤ odxRank a.kind)
+              ∧ (∀ c ∈ offersOf odxRank ps n, odxRank c.kind ≤ odxRank b.kind)
               ∧ a.obj ≠ b.obj) := by
   rw [conflict_iff]
-  simp only [clash_iff, mem_topOffers]
+  simp only [clash_iff', mem_topOffers']
   constructor
   · rintro ⟨hk, h | ⟨n, hl, a, b, ha, hb, hne⟩⟩
     · exact ⟨hk, Or.inl h⟩
@@ -71,25 +92,26 @@ theorem C09_inherited_from_best_parent (nm : Nat) (k : LayerKind) (ls : List Obj
     (ps : List (Layer × List Name)) (hwf : WF (.mk nm k ls ps)) (objs : List Obj)
     (h : computeAvailable (.mk nm k ls ps) = .ok objs) (n : Name) (hloc : localObj ls n = none)
     (o : Obj) (ho : lookup objs n = some o) :
-    ∃ pe ∈ ps, pe.2.contains n = false ∧ visible pe.1 n = some o
-      ∧ ∀ qe ∈ ps, qe.2.contains n = false → visible qe.1 n ≠ none → qe.1.kind.prio ≤ pe.1.kind.prio := by
+    ∃ pe ∈ ps, pe.2.contains n = false ∧ visible odxRank pe.1 n = some o
+      ∧ ∀ qe ∈ ps, qe.2.contains n = false → visible odxRank qe.1 n ≠ none →
+          odxRank qe.1.kind ≤ odxRank pe.1.kind := by
   rw [C09_refines _ hwf objs h, visible, hloc] at ho
   simp only at ho
   split at ho
   · cases ho
-  · cases htop : topOffers (offersOf ps n) with
+  · cases htop : topOffers odxRank (offersOf odxRank ps n) with
     | nil => rw [htop] at ho; cases ho
     | cons a t =>
       rw [htop] at ho
       simp only [List.head?_cons, Option.map_some, Option.some.injEq] at ho
-      have ha : a ∈ topOffers (offersOf ps n) := by rw [htop]; exact List.mem_cons_self ..
-      obtain ⟨hao, hmax⟩ := (mem_topOffers _ a).1 ha
-      obtain ⟨pe, hpe, hex, hv, hp⟩ := (mem_offersOf ps n a).1 hao
+      have ha : a ∈ topOffers odxRank (offersOf odxRank ps n) := by rw [htop]; exact List.mem_cons_self ..
+      obtain ⟨hao, hmax⟩ := (mem_topOffers' _ _ a).1 ha
+      obtain ⟨pe, hpe, hex, hv, hp⟩ := (mem_offersOf odxRank ps n a).1 hao
       refine ⟨pe, hpe, hex, by rw [hv, ho], fun qe hqe hqex hqv => ?_⟩
-      cases hq : visible qe.1 n with
+      cases hq : visible odxRank qe.1 n with
       | none => exact absurd hq hqv
       | some o' =>
-        have := hmax ⟨qe.1.kind.prio, o'⟩ ((mem_offersOf ps n _).2 ⟨qe, hqe, hqex, hq, rfl⟩)
+        have := hmax ⟨qe.1.kind, o'⟩ ((mem_offersOf odxRank ps n _).2 ⟨qe, hqe, hqex, hq, rfl⟩)
         rw [hp] at this
         exact this
 
@@ -98,7 +120,7 @@ theorem C09_inherited_from_best_parent (nm : Nat) (k : LayerKind) (ls : List Obj
 theorem C09_excluded_not_inherited (nm : Nat) (k : LayerKind) (ls : List Obj)
     (ps : List (Layer × List Name)) (hwf : WF (.mk nm k ls ps)) (objs : List Obj)
     (h : computeAvailable (.mk nm k ls ps) = .ok objs) (n : Name) (hloc : localObj ls n = none)
-    (hex : ∀ pe ∈ ps, visible pe.1 n ≠ none → pe.2.contains n = true) : lookup objs n = none := by
+    (hex : ∀ pe ∈ ps, visible odxRank pe.1 n ≠ none → pe.2.contains n = true) : lookup objs n = none := by
   cases hl : lookup objs n with
   | none => rfl
   | some o =>
@@ -110,8 +132,8 @@ theorem C09_excluded_not_inherited (nm : Nat) (k : LayerKind) (ls : List Obj)
     each referenced parent is exactly that parent's own view (the function has no other input). -/
 theorem C09_parent_unchanged : ∀ (ps : List (Layer × List Name)) (rs : List ParentRes),
     computeParents ps = .ok rs →
-    ps.map (fun pe => (pe.1.kind.prio, pe.2, computeAvailable pe.1))
-      = rs.map (fun r => (r.prio, r.excl, Except.ok r.objs)) := by
+    ps.map (fun pe => (pe.1.kind, pe.2, computeAvailable pe.1))
+      = rs.map (fun r => (r.kind, r.excl, Except.ok r.objs)) := by
   intro ps
   induction ps with
   | nil => intro rs h; rw [computeParents] at h; cases h; rfl
@@ -130,20 +152,7 @@ theorem C09_parent_unchanged : ∀ (ps : List (Layer × List Name)) (rs : List P
         cases h
         simp only [List.map_cons, hc, ih rs' hcr]
 
-/-! ## obligations over the tables regenerated from the source (`Gen/LayerPrio.lean`) -/
-
-/-- priorities are strict and ordered as ISO 22901-1 §7.3.2.4 demands: protocol < functional group <
-    base variant < ECU variant, and ECU-SHARED-DATA overrides all of them -/
-theorem C09_priority_table :
-    LayerKind.prio .protocol < LayerKind.prio .functionalGroup
-    ∧ LayerKind.prio .functionalGroup < LayerKind.prio .baseVariant
-    ∧ LayerKind.prio .baseVariant < LayerKind.prio .ecuVariant
-    ∧ LayerKind.prio .ecuVariant < LayerKind.prio .ecuSharedData
-    ∧ (∀ a b : LayerKind, a.prio = b.prio → a = b)
-    ∧ (∀ k : LayerKind, k ∈ [LayerKind.protocol, .functionalGroup, .baseVariant, .ecuVariant, .ecuSharedData]) := by
-  refine ⟨by decide, by decide, by decide, by decide, ?_, ?_⟩
-  · intro a b; cases a <;> cases b <;> decide
-  · intro k; cases k <;> decide
+/-! ## the generated category tables -/
 
 /-- every object category subject to value inheritance is merged with its own local-object getter and
     the NOT-INHERITED list ISO 22901-1 assigns to it: diag-comms (services and single-ECU jobs) ↔
@@ -211,15 +220,15 @@ def exTwice : Layer := .mk 9 .ecuVariant [] [(exF, [2]), (exF', [2])]
 example : WF exB ∧ WF exClash ∧ WF exSettledLocal ∧ WF exSettledExcl ∧ WF exTwice := by
   simp [WF, WFIn, exB, exP, exF, exS, exClash, exG, exSettledLocal, exSettledExcl, exTwice, exF']
 example : computeAvailable exB = .ok [⟨1, 100⟩, ⟨2, 21⟩, ⟨4, 40⟩] := by decide
-example : visible exB 1 = some ⟨1, 100⟩ ∧ visible exB 2 = some ⟨2, 21⟩ ∧ visible exB 3 = none
-    ∧ visible exB 4 = some ⟨4, 40⟩ ∧ conflict exB = false := by decide
-example : computeAvailable exClash = .error .odx ∧ conflict exClash = true := by decide
+example : visible odxRank exB 1 = some ⟨1, 100⟩ ∧ visible odxRank exB 2 = some ⟨2, 21⟩
+    ∧ visible odxRank exB 3 = none ∧ visible odxRank exB 4 = some ⟨4, 40⟩ ∧ conflict odxRank exB = false := by decide
+example : computeAvailable exClash = .error .odx ∧ conflict odxRank exClash = true := by decide
 example : computeAvailable exSettledLocal = .ok [⟨1, 12⟩, ⟨2, 21⟩, ⟨3, 30⟩] := by decide
 example : computeAvailable exSettledExcl = .ok [⟨2, 21⟩, ⟨3, 30⟩, ⟨1, 11⟩] := by decide
-example : computeAvailable exTwice = .ok [⟨1, 10⟩, ⟨3, 30⟩] ∧ conflict exTwice = false := by decide
+example : computeAvailable exTwice = .ok [⟨1, 10⟩, ⟨3, 30⟩] ∧ conflict odxRank exTwice = false := by decide
 /-- hypotheses of `C09_excluded_not_inherited` and `C09_inherited_from_best_parent` are met by `exB` -/
 example : localObj exB.locals 3 = none
-    ∧ (∀ pe ∈ exB.parents, visible pe.1 3 ≠ none → pe.2.contains 3 = true)
+    ∧ (∀ pe ∈ exB.parents, visible odxRank pe.1 3 ≠ none → pe.2.contains 3 = true)
     ∧ localObj exB.locals 1 = none ∧ lookup [(⟨1, 100⟩ : Obj), ⟨2, 21⟩, ⟨4, 40⟩] 1 = some ⟨1, 100⟩ := by decide
 
 end OdxVerif.Inherit
